@@ -60,7 +60,9 @@ class C18(common.Spec):
             fresh = lambda s: ''.join(list(s))
             interval = interval_us / 1e6
             if case['implicit']:
-                ev = edzed.Event(dest, fresh('ev'), repeat=interval, count=case['count'])
+                # (with an event filter: what the filter rejects never reaches the implicit Repeat block)
+                ev = edzed.Event(dest, fresh('ev'), repeat=interval, count=case['count'],
+                                 efilter=lambda data: data.get('tag') != 901)
                 rblocks = [b for b in circuit.getblocks(edzed.Repeat)]
             else:
                 r_last = edzed.Repeat('r_last', dest=dest, etype='ev', interval=interval, count=case['count'])
@@ -84,6 +86,14 @@ class C18(common.Spec):
             except Exception as err:
                 obs['error'] = common.exc_enum(circuit.error or err)
                 return
+            if case['implicit']:
+                try:
+                    if ev.send(src, tag=901, extra='x901') is not False:
+                        obs['error'] = 'EFilteredEventAccepted'
+                except Exception as err:             # noqa
+                    obs['error'] = common.exc_enum(err)
+                if any(d.get('tag') == 901 for lst in inputs.values() for _, _, d, _ in lst):
+                    obs['error'] = 'EFilteredEventDelivered'
             for t_us, etype, tag in case['events']:
                 delay = (t_us - loop.vt_us) / 1e6
                 if delay > 0:
